@@ -19,7 +19,8 @@ EXPLANATION = (
     '(S8), custom from_config forwards every parameter its config carries (S9). '
     'Keras (de)serialisation itself and weight files are the trusted base.'
     " Also decided: from_config / deserialize helpers never mutate the caller's dict (S12); constraints that come back from JSON as lists are converted before they are used as dictionary keys or set members (T4); the premade dtype argument survives the round trip (S9, attribute provenance through a renamed attribute)."
-    ' A constraint tuple is only looked up among tuples (T4 membership); after a method normalised self.x into a local, no call receives the raw attribute (X8).')
+    ' A constraint tuple is only looked up among tuples (T4 membership); after a method normalised self.x into a local, no call receives the raw attribute (X8).'
+    ' A serialised constructor parameter that the reference stores unchanged is still stored unchanged (S15): `x or []` would turn None into [] in get_config().')
 ASSUMPTIONS = [
     'keras (de)serialize / get / custom_object_scope behave as documented',
     'cls(**config) is how Keras rebuilds an object without a custom from_config',
@@ -30,6 +31,58 @@ S9_EXCEPTIONS = {
 }
 NESTED_KEYS = ('feature_configs', 'regularizer_configs', 'reflects_trust_in',
                'dominates')
+
+
+def _identity_storage(prog, res):
+  """S15: where the reference constructor stores a parameter unchanged
+  (`self.a = a`) and the class serialises the attribute, the constructor
+  still stores it unchanged.  `self.a = a or []` turns None into [] in
+  get_config(): the config of an object no longer equals the arguments it
+  was built from, and from_config may reject or reinterpret the new value
+  (RTL: `kernel_regularizer` must be None for the Kronecker-factored
+  parameterization).  The reference shape comes from tflsa/inventory.json."""
+  from .. import inline
+  inv = inline.inventory()
+  for c in sorted(prog.all_classes(), key=lambda c: c.qualname):
+    if not (c.kind in serial.SERIAL_KINDS and 'get_config' in c.methods and
+            '__init__' in c.methods):
+      continue
+    init = c.methods['__init__']
+    entry = inv.get(c.module.name, {}).get('%s.__init__' % c.name)
+    if not entry:
+      continue
+    ref_identity = set()
+    ref_rhs = {}
+    for line in entry.get('flat') or []:
+      t = line.strip()
+      if t.startswith('self.') and ' = ' in t:
+        lhs, rhs = t.split(' = ', 1)
+        ref_rhs.setdefault(lhs[5:], set()).add(rhs.replace(' ', ''))
+        if lhs == 'self.' + rhs and rhs.isidentifier():
+          ref_identity.add(rhs)
+    emitted = set()
+    for n in ast.walk(c.methods['get_config'].node):
+      if isinstance(n, ast.Attribute) and isinstance(
+          n.value, ast.Name) and n.value.id == 'self':
+        emitted.add(n.attr)
+    params = set(init.all_params)
+    for a in sorted(ref_identity & emitted & params):
+      defs = [st for st in ast.walk(init.node) if isinstance(
+          st, ast.Assign) and len(st.targets) == 1 and dotted(
+              st.targets[0]) == 'self.' + a]
+      if not defs:
+        continue
+      first = min(defs, key=lambda st: (st.lineno, st.col_offset))
+      cur = {norm_text(st.value).replace(' ', '') for st in defs}
+      extra = sorted(cur - ref_rhs.get(a, set()))
+      res.check(not extra and a in cur, 'S15',
+                '%s|%s' % (c.qualname, a), init.loc(first),
+                'the serialised parameter is stored as given',
+                'the constructor stores `%s` where it used to store the '
+                'parameter `%s` itself (%s): get_config() no longer returns '
+                'the argument the object was built from' % (
+                    (extra or sorted(cur))[0][:50], a,
+                    ', '.join(sorted(ref_rhs.get(a, set())))[:60]))
 
 
 def run(prog, res):
@@ -57,6 +110,8 @@ def run(prog, res):
       n_classes += 1
       _check_config_class(prog, res, c, config_base)
   _check_config_base(prog, res, config_base)
+  _identity_storage(prog, res)
+  res.floor('S15', 100)
   _check_registry(prog, res)
   _immutability(prog, res)
   rng.check_seed_only(prog, res, 'rtl_layer.RTL._get_rtl_structure', rule='S8',
